@@ -7,9 +7,6 @@ package otp
 import (
 	"crypto/hmac"
 	"crypto/rand"
-	"crypto/sha1"
-	"crypto/sha256"
-	"crypto/sha512"
 	"fmt"
 	"hash"
 	"math/big"
@@ -78,35 +75,6 @@ func (r *verifHmacRec) Reset()         { r.msg = nil; r.digest = nil; r.inner.Re
 func (r *verifHmacRec) Size() int      { return r.inner.Size() }
 func (r *verifHmacRec) BlockSize() int { return r.inner.BlockSize() }
 
-func verifInstall() {
-	if verifInstalled {
-		return
-	}
-	verifInstalled = true
-	ctors := []func() hash.Hash{sha1.New, sha256.New, sha512.New}
-	for i := range hmacPools {
-		i := i
-		verifOrigNew[i] = hmacPools[i].new
-		hmacPools[i].new = func(key []byte) hash.Hash {
-			// which algorithm the *real* constructor of this row yields is determined by its digest size
-			real := verifOrigNew[i](key)
-			alg := map[int]int{20: 0, 32: 1, 64: 2}[real.Size()]
-			_ = ctors
-			r := &verifHmacRec{alg: alg, key: append([]byte{}, key...), inner: real}
-			seq := len(verifHmacs)
-			verifHmacs = append(verifHmacs, r)
-			if verifUseDigests && verifCur != nil && seq < len(verifCur.Digests) && len(verifCur.Digests[seq]) > 0 {
-				d := make([]byte, len(verifCur.Digests[seq]))
-				for j, x := range verifCur.Digests[seq] {
-					d[j] = byte(x)
-				}
-				r.digest = d
-			}
-			return r
-		}
-	}
-}
-
 var _ = hmac.New
 
 func verifRunJob(j *verifJob, table map[string]func()) (res *verifJobResult) {
@@ -172,21 +140,8 @@ func verifPoolAdversary(on bool) {
 	if verifPoisonRound%2 == 0 {
 		pat = 0x5A
 	}
-	b := rfc6287BufPool.Get().(*[]byte)
-	full := (*b)[:cap(*b)]
-	for i := range full {
-		full[i] = pat
-	}
-	if n > len(full) {
-		n = len(full)
-	}
-	*b = full[:n]
-	rfc6287BufPool.Put(b)
-	c := rfc4226BufPool.Get().(*[8]byte)
-	for i := range c {
-		c[i] = 0xA5
-	}
-	rfc4226BufPool.Put(c)
+	verifPoisonOCRAPool(n, pat)
+	verifPoisonHOTPPool()
 }
 func verifTraceOn(on bool)                     {}
 func verifFrameViolations() int                { return 0 }
